@@ -5,6 +5,10 @@ import os, sys, subprocess, time
 sys.path.insert(0, os.path.dirname(os.path.abspath(__file__)))
 import build as buildmod
 
+def vlib_helgrind():
+    import vlib
+    return list(vlib.HELGRIND)
+
 def main():
     t0 = time.time()
     os.makedirs(os.path.join(buildmod.VERIF, "evidence"), exist_ok=True)
@@ -21,6 +25,13 @@ def main():
     tb = buildmod.build("tsan", None, ["c06_omp_tsan", "omp_threads_selftest"])   # ThreadSanitizer probe of the OpenMP region (single inline rank, real threads)
     r = subprocess.run([tb["omp_threads_selftest"]], stdout=subprocess.PIPE, stderr=subprocess.STDOUT, text=True)
     print("[setup] tsan: %s" % (r.stdout.strip().splitlines()[-1] if r.stdout.strip() else "(no output)"))
+    if r.returncode != 0:
+        print(r.stdout[-4000:]); return 1
+    # the same real-thread teams without instrumentation, for helgrind (second race detector of the C06 check); SimGOMP's own
+    # thread-mode primitives (barrier, single, work-sharing loops, sections, critical) must be silent under it
+    hb = buildmod.build("thr", None, ["c06_omp_tsan", "omp_threads_selftest"])
+    r = subprocess.run(vlib_helgrind() + [hb["omp_threads_selftest"]], stdout=subprocess.PIPE, stderr=subprocess.STDOUT, text=True)
+    print("[setup] helgrind: %s" % (r.stdout.strip().splitlines()[-1] if r.stdout.strip() else "(no output)"))
     if r.returncode != 0:
         print(r.stdout[-4000:]); return 1
     r = subprocess.run([sys.executable, os.path.join(buildmod.VERIF, "tools", "selftest.py"), "--quick"])
